@@ -652,8 +652,20 @@ static void scen_exact_io() {
       set_context("writex(fd)");
       ev("op.writex", n);
       try {
-        if (choose(2, "G.writex.form")) phosg::writex(fd, D);
-        else phosg::writex(fd, D.data(), D.size());
+        unsigned form = choose(3, "G.writex.form");
+        if (form == 2) {
+          // template form: an object of 21 bytes
+          Obj o;
+          memset(&o, 0x3C, sizeof(o));
+          o.a = 0x01020304;
+          D.assign((const char*)&o, sizeof(o));
+          n = D.size();
+          phosg::writex<Obj>(fd, o);
+        } else if (form == 1) {
+          phosg::writex(fd, D);
+        } else {
+          phosg::writex(fd, D.data(), D.size());
+        }
       } catch (const std::exception& e) {
         threw = true;
         what = e.what();
@@ -731,10 +743,15 @@ static void scen_exact_io() {
         threw = true;
         what = e.what();
       }
+      uint64_t errors_during_call = c.errors; // cookie errors seen before fwritex returned
       int flush_rc = fclose(f);
       string want = base;
       if (want.size() < n) want.resize(n);
       want.replace(0, n, D);
+      if (!threw && errors_during_call) {
+        // the stream reported a write error to fwrite (short count) while fwritex was running
+        fail("fwritex/error_swallowed", "enospc", "the stream failed while fwritex was writing " + std::to_string(n) + " bytes, yet fwritex returned normally");
+      }
       if (!threw && flush_rc == 0) {
         if (ino->data != want) fail(string("fwritex/") + diff_kind(ino->data, want), c.short_writes ? "short_write" : "plain", "fwritex and fclose succeeded but the file is wrong: " + describe_diff(ino->data, want));
       } else if (threw && !c.errors && !c.short_writes) {
